@@ -20,7 +20,9 @@ import (
 	spb "github.com/openconfig/gribi/v1/proto/service"
 )
 
-func main() { drv.Main(map[string]drv.Cmd{"c11": run}) }
+func main() {
+	drv.Main(map[string]drv.Cmd{"c11": run, "c11elect": drv.ElectConcCmd("c11elect", "C11"), "c11snap": drv.SnapCmd("C11")})
+}
 
 type c11Case struct {
 	Seed     int64 `json:"seed"`
